@@ -28,7 +28,7 @@ fn gen_value(rng: &mut Rng, safe: bool) -> J {
         1 => json!(["int", rng.pick(&[i64::MAX, i64::MIN, 0, -1, 1, 1 << 53, (1 << 53) + 1, -(1 << 53) - 1, 42]).to_string()]),
         2 => json!(["int", rng.range(-1000, 1000).to_string()]),
         3 => real_spec(*rng.pick(&[0.0, -0.0, 0.1, 1.0 / 3.0, 1e308, -1e308, 5e-324, 2.5, 100.0, 1e21, 1e-7, 123456789.125, 9007199254740993.0, -1.005])),
-        4 => real_spec(rng.range(-4000, 4000) as f64 / 8.0),
+        4 => real_spec(match rng.below(4) { 0 => rng.range(-4000, 4000) as f64 / 8.0, 1 => rng.range(-100000, 100000) as f64 / 1000.0, 2 => (rng.range(-2000, 2000) * 10 + 5) as f64 / 1000.0, _ => *rng.pick(&[1.7e308, -1.7e308, 1.8e306, 1e307, 4.35, 0.615, -2.675, 1.005, 8.325, 1e15 + 0.375, 0.045, 1e-3, 0.005, 0.015, 0.995]) }),
         5 => json!(["bool", rng.chance(1, 2)]),
         6 | 7 => json!(["text", *rng.pick(if safe { SAFE_TEXT } else { NASTY_TEXT })]),
         8 => {
@@ -44,19 +44,51 @@ fn gen_value(rng: &mut Rng, safe: bool) -> J {
     }
 }
 
-/// recover a row value from the JSON record value
-fn json_matches(v: &Value, j: &J) -> bool {
-    match v {
-        Value::Null => j.is_null(),
-        Value::Int(i) => j.as_i64() == Some(*i) && j.is_i64() || (j.is_u64() && *i >= 0 && j.as_u64() == Some(*i as u64)),
-        Value::Float(f) => j.is_number() && !j.is_i64() && !j.is_u64() && j.as_f64().map(|x| x.to_bits() == f.0.to_bits() || (x == f.0 && x != 0.0)).unwrap_or(false)
-            // an integral REAL may be printed as 1.0 (a float) - or, if a printer chose so, as an integer token that still denotes the value exactly
-            || (j.is_i64() && f.0 == f.0.trunc() && f.0.abs() < 9e15 && j.as_i64() == Some(f.0 as i64) && !(f.0 == 0.0 && f.0.is_sign_negative())),
-        Value::Bool(b) => j.as_bool() == Some(*b),
-        Value::String(s) => j.as_str() == Some(s.as_str()),
-        Value::Array(_, xs) => j.as_array().map(|a| a.len() == xs.len() && xs.iter().zip(a).all(|(x, y)| json_matches(x, y))).unwrap_or(false),
-        Value::Timestamp(_) | Value::Interval(_) => j.as_str() == Some(v.to_string().as_str()),
+/// a decoded JSON record whose numbers keep their printed token: serde_json (without `float_roundtrip`, which the
+/// repository does not enable either) may decode a number one ulp off, so REALs are judged on the token itself,
+/// parsed with std's correctly rounding `f64::from_str`
+#[derive(Debug)]
+enum RJ { Null, Bool(bool), Num(String), Str(String), Arr(Vec<RJ>), Obj(Vec<(String, RJ)>) }
+
+fn number_tokens(rec: &str) -> Vec<String> {
+    let b = rec.as_bytes();
+    let (mut i, mut out) = (0, Vec::new());
+    while i < b.len() {
+        match b[i] {
+            b'"' => { i += 1; while i < b.len() && b[i] != b'"' { if b[i] == b'\\' { i += 1; } i += 1; } i += 1; }
+            b'-' | b'0'..=b'9' => { let st = i; while i < b.len() && matches!(b[i], b'-' | b'+' | b'.' | b'e' | b'E' | b'0'..=b'9') { i += 1; } out.push(rec[st..i].to_owned()); }
+            _ => i += 1,
+        }
     }
+    out
+}
+
+fn annotate(j: &J, toks: &mut std::vec::IntoIter<String>) -> RJ {
+    match j {
+        J::Null => RJ::Null, J::Bool(b) => RJ::Bool(*b), J::String(s) => RJ::Str(s.clone()),
+        J::Number(n) => RJ::Num(toks.next().unwrap_or_else(|| n.to_string())),
+        J::Array(a) => RJ::Arr(a.iter().map(|x| annotate(x, toks)).collect()),
+        J::Object(o) => RJ::Obj(o.iter().map(|(k, v)| (k.clone(), annotate(v, toks))).collect()),
+    }
+}
+
+/// recover a row value from the JSON record value
+fn json_matches(v: &Value, j: &RJ) -> bool {
+    match (v, j) {
+        (Value::Null, RJ::Null) => true,
+        (Value::Int(i), RJ::Num(t)) => t.parse::<i64>() == Ok(*i),
+        // a REAL: the token denotes exactly this double (an integral REAL may be printed as `1.0` or as an integer token)
+        (Value::Float(f), RJ::Num(t)) => t.parse::<f64>().map(|x| x.to_bits() == f.0.to_bits() || (x == f.0 && x != 0.0)).unwrap_or(false),
+        (Value::Bool(b), RJ::Bool(x)) => b == x,
+        (Value::String(s), RJ::Str(x)) => s == x,
+        (Value::Array(_, xs), RJ::Arr(a)) => a.len() == xs.len() && xs.iter().zip(a).all(|(x, y)| json_matches(x, y)),
+        (Value::Timestamp(_), RJ::Str(x)) | (Value::Interval(_), RJ::Str(x)) => *x == v.to_string(),
+        _ => false,
+    }
+}
+
+fn show_rj(j: &RJ) -> String {
+    match j { RJ::Null => "null".into(), RJ::Bool(b) => b.to_string(), RJ::Num(t) => t.clone(), RJ::Str(s) => format!("{:?}", s), RJ::Arr(a) => format!("[{}]", a.iter().map(show_rj).collect::<Vec<_>>().join(",")), RJ::Obj(o) => format!("{{{}}}", o.iter().map(|(k, v)| format!("{:?}:{}", k, show_rj(v))).collect::<Vec<_>>().join(",")) }
 }
 
 fn needs_escaping(v: &Value) -> bool {
@@ -77,10 +109,10 @@ fn delimiter_free(v: &Value) -> bool {
     }
 }
 
-/// text rendering of one value as the documented formats show it (REAL compared with tolerance)
+/// text rendering of one value as the documented formats show it (REAL: correctly rounded at the shown precision, >= 2 decimals, exact decimal arithmetic)
 fn text_matches(v: &Value, shown: &str) -> bool {
     match v {
-        Value::Float(f) => shown.parse::<f64>().map(|x| (x - f.0).abs() <= 0.005 + f.0.abs() * 1e-12 || (x.is_infinite() && f.0.abs() > 1e300)).unwrap_or(false),
+        Value::Float(f) => crate::val::decimal_rounding_ok(f.0, shown),
         Value::Null => shown == "NULL",
         Value::Int(i) => shown == i.to_string(),
         Value::Bool(b) => shown == b.to_string(),
@@ -162,8 +194,9 @@ fn judge(format: &str, columns: &[String], rows: &[&Vec<Value>], printed: &[Stri
                 let Ok(J::Object(map)) = parsed else { vs.push(Violation::new("print|json|not-an-object", format!("record {}: {:?}", i, rec.chars().take(120).collect::<String>()))); break; };
                 let keys: Vec<&String> = map.keys().collect();
                 if keys.len() != columns.len() || keys.iter().zip(columns.iter()).any(|(a, b)| *a != b) { vs.push(Violation::new("print|json|keys", format!("record {}: keys {:?} columns {:?}", i, keys, columns))); break; }
-                for (ci, (k, v)) in columns.iter().zip(row.iter()).enumerate() {
-                    if !json_matches(v, &map[k]) { vs.push(Violation::new(format!("print|json|value|{}", RV::from_engine(v).tag()), format!("record {} column {} ({}): row value {} printed as {}", i, ci, k, RV::from_engine(v).show(), map[k]))); break; }
+                let RJ::Obj(raw) = annotate(&J::Object(map.clone()), &mut number_tokens(rec).into_iter()) else { break; };
+                for (ci, ((k, v), (_, shown))) in columns.iter().zip(row.iter()).zip(raw.iter()).enumerate() {
+                    if !json_matches(v, shown) { vs.push(Violation::new(format!("print|json|value|{}", RV::from_engine(v).tag()), format!("record {} column {} ({}): row value {} printed as {}", i, ci, k, RV::from_engine(v).show(), show_rj(shown)))); break; }
                 }
                 if !vs.is_empty() { break; }
             }
